@@ -131,6 +131,25 @@ Definition read_description (f : file) : option (content * str) :=
   | None => None
   end.
 
+(* GetDescription for a group that is LOADED in the running server: the
+   definition cached in memory ([cache], read at some earlier moment) is
+   returned if descriptionUnchanged says so -- stat of the file succeeds and
+   size AND mtime both equal the cached ones -- else the file is read.  The
+   tag served is made from the stamp of whatever is returned. *)
+Definition stamp_eqb (a b : stamp) : bool := (fst a =? fst b) && (snd a =? snd b).
+
+Definition description_unchanged (cache : content * stamp) (f : file) : bool :=
+  match f with
+  | None => false
+  | Some (_, s) => stamp_eqb s (snd cache)
+  end.
+
+Definition get_description (cache : file) (f : file) : file :=
+  match cache with
+  | Some cd => if description_unchanged cd f then Some cd else f
+  | None => f
+  end.
+
 (* GetUserTag (GetSanitisedUser): the tag of the FILE if the user exists *)
 Definition get_user_tag (f : file) (t : target) : option str :=
   match f with
